@@ -364,6 +364,8 @@ class TestCmd:
                 op["date_and_pin"] = True
             if rng.random() < 0.1:
                 op["verbose"] = rng.choice(["-v", "-vv"])    # must not change any outcome
+            if rng.random() < 0.006:
+                op["child"] = True     # fidelity: also run this step as a real `python -m bumpver` process
             if rng.random() < 0.04:
                 op["malformed"] = rng.choice([["--date", "2021-13-45"], ["--date", "yesterday"], ["--tag", "gamma"],
                                               ["--tag", "ALPHA"], ["--date", "2021-02-30"]])
@@ -488,6 +490,16 @@ class TestCmd:
                                       ures.exc or [m for _l, _n, m in ures.logs][-2:]))
                 ctx.probe("legacy_dispatch_compared")
             ctx.event(argv, res.exit_code, new_text)
+            if op.get("child") and use_date and target is None:
+                # the in-process seam must be faithful to a real process (same exit code, same announced lines)
+                cres = invoker.invoke_child(d, argv, locale="utf8")
+                ctx.invocations += 1
+                ctx.probe("child_process_fidelity_sample")
+                cnew = cres.out_value("New Version: ")
+                if (cres.exit_code == 0) != (res.exit_code == 0) or cnew != new_text or \
+                        cres.out_value("PEP440     : ") != res.out_value("PEP440     : "):
+                    raise invoker.HarnessError("in-process and child process disagree on %s: exit %s/%s, new %r/%r" % (
+                        argv, res.exit_code, cres.exit_code, new_text, cnew))
             rel = "same" if delta == 0 else ("fwd" if delta > 0 else "back")
             abstract = (tuple(sorted(set(rp.parts_of(tree)))), tuple(sorted(flags)), op.get("sv"), rel)
             ctx.state(abstract[:1] + (state.get("tag"),))
